@@ -169,7 +169,7 @@ def classify(unit, out, res, diags, stderr):
             continue
         failures.append({"label": label, "fn": fn, "message": msg, "site": site, "asm_line": asm_line, "text": text, "clause_src": contract_src,
                          "implicit": implicit, "fn_labels": sorted(fn_labels.get(fn, [])) if fn else []})
-    if vr.get("errors", 0) > 0 and not failures:
+    if vr.get("errors", 0) > 0 and not failures and not notes:
         raise Undecided("tool-error", "verus reports errors but no diagnostic was parsed: " + stderr[-1500:])
     if not vr.get("success", False) and not failures and vr.get("errors", 0) == 0:
         # compile (erasure) error after successful verification etc.
